@@ -2,7 +2,9 @@
 from hist import *  # noqa
 from remerkleable.tree import NavigationError, RootNode
 
-THEOREMS = []
+THEOREMS = ["C17_root", "C17_get", "C17_set", "C17_set_expand", "C17_errors", "C17_summarize"]
+PARTIAL = ["C17_view: the lift of the tree-level simulation to every view operation is not proved as one theorem; view operations (len/get/set/append/pop/bit ops/field ops/serialize) on partial trees are compared with the model and, model-free, with the complete tree by the correspondence"]
+ASSUMPTIONS = ["Hinj (collision-freeness of the pair hash) is a premise of C17_set_expand"]
 COQ_IMPORTS = ["RM.Types", "RM.ModelStore", "RMR.RunC17"]
 COQ_FN = "RunC17.run"
 COQ_CASE_TY = "RunC17.case"
